@@ -215,32 +215,46 @@ def preStep (a : Pre) (f : FileInfo) : Pre :=
 
 def prePass (files : List FileInfo) : Pre := files.foldl preStep {}
 
+/-- `size >= 0 && size <= maxSize` then `maxSize -= size`, else SizeError. -/
+def St.account (s : St) (size : Int) : St :=
+  if 0 ≤ size ∧ size ≤ s.maxSize then { s with maxSize := s.maxSize - size }
+  else { s with cf := { s.cf with sizeError := true } }
+
+def St.pushValid (s : St) (f : FileInfo) : St :=
+  { s with cf := { s.cf with valid := s.cf.valid ++ [f.path] }, validFiles := s.validFiles ++ [f] }
+
+def St.setCC (s : St) (cc : CC) : St := { s with cc := cc }
+
+/-- a regular file whose name passed every check: size accounting and the two per-file limits. -/
+def stepSized (s : St) (f : FileInfo) : St :=
+  if f.path == goModName && f.size > MaxGoMod then (s.account f.size).addError f.path false .goModSize
+  else if f.path == licenseName && f.size > MaxLICENSE then (s.account f.size).addError f.path false .licenseSize
+  else (s.account f.size).pushValid f
+
+/-- after the collision check: symbolic links and other irregular files are omitted. -/
+def stepMode (s : St) (f : FileInfo) : St :=
+  if f.mode == .symlink then s.addError f.path true .symlink
+  else if f.mode != .regular then s.addError f.path true .notRegular
+  else stepSized s f
+
+/-- `Lstat` and the collision check. -/
+def stepStat (E : Env) (s : St) (f : FileInfo) : St :=
+  if f.mode == .lstatErr then s.addError f.path false .lstat
+  else
+    match ccCheckTop E.toFold s.cc f.path (f.mode == .dir) with
+    | (cc', some e) => (s.setCC cc').addError f.path false e
+    | (cc', none) => stepMode (s.setCC cc') f
+
 /-- body of the second loop for one file. -/
 def stepFile (E : Env) (ge124 : Bool) (haveGoMod : List Bytes) (s : St) (f : FileInfo) : St :=
-  let p := f.path
-  if p != pathClean p then s.addError p false .notClean
-  else if isAbs p then s.addError p false .notRelative
-  else if isVendoredPackage p ge124 then s.addError p true .vendored
-  else if inSubmodule haveGoMod p then s.addError p true .submoduleFile
-  else if p == hgArchivalName then s.addError p true .hgArchival
-  else if !E.cfp p then s.addError p false .filePath
-  else if toLowerIsGoMod p && p != goModName then s.addError p false .goModCase
-  else if f.mode == .lstatErr then s.addError p false .lstat
-  else
-    match ccCheckTop E.toFold s.cc p (f.mode == .dir) with
-    | (cc', some e) => ({ s with cc := cc' }).addError p false e
-    | (cc', none) =>
-      let s := { s with cc := cc' }
-      if f.mode == .symlink then s.addError p true .symlink
-      else if f.mode != .regular then s.addError p true .notRegular
-      else
-        let size := f.size
-        let s :=
-          if 0 ≤ size ∧ size ≤ s.maxSize then { s with maxSize := s.maxSize - size }
-          else { s with cf := { s.cf with sizeError := true } }
-        if p == goModName && size > MaxGoMod then s.addError p false .goModSize
-        else if p == licenseName && size > MaxLICENSE then s.addError p false .licenseSize
-        else { s with cf := { s.cf with valid := s.cf.valid ++ [p] }, validFiles := s.validFiles ++ [f] }
+  if f.path != pathClean f.path then s.addError f.path false .notClean
+  else if isAbs f.path then s.addError f.path false .notRelative
+  else if isVendoredPackage f.path ge124 then s.addError f.path true .vendored
+  else if inSubmodule haveGoMod f.path then s.addError f.path true .submoduleFile
+  else if f.path == hgArchivalName then s.addError f.path true .hgArchival
+  else if !E.cfp f.path then s.addError f.path false .filePath
+  else if toLowerIsGoMod f.path && f.path != goModName then s.addError f.path false .goModCase
+  else stepStat E s f
 
 /-- second loop with the go version flag and the go.mod directories given. -/
 def mainPass (E : Env) (ge124 : Bool) (haveGoMod : List Bytes) (s0 : St) (files : List FileInfo) : St :=
@@ -313,34 +327,40 @@ def ZSt.addError (s : ZSt) (name : Bytes) (r : Reason) : ZSt :=
 
 def hasSlashSuffix (s : Bytes) : Bool := s.getLast? == some 47
 
+def ZSt.account (s : ZSt) (sz : Int) : ZSt :=
+  if 0 ≤ sz ∧ (MaxZipFile : Int) - s.size ≥ sz then { s with size := s.size + sz }
+  else { s with cf := { s.cf with sizeError := true } }
+
+def ZSt.pushValid (s : ZSt) (name : Bytes) : ZSt :=
+  { s with cf := { s.cf with valid := s.cf.valid ++ [name] } }
+
+def ZSt.setCC (s : ZSt) (cc : CC) : ZSt := { s with cc := cc }
+
+/-- a file entry whose name passed the path and collision checks: go.mod placement and sizes.
+    `name` = path below the prefix. -/
+def zipSized (s : ZSt) (zf : Entry) (name : Bytes) : ZSt :=
+  if equalFoldGoMod (pathBase name) && pathBase name != name then s.addError zf.name .goModNotRoot
+  else if equalFoldGoMod (pathBase name) && name != goModName then s.addError zf.name .goModCase
+  else if name == goModName && int64OfU64 zf.declSize > MaxGoMod then
+    (s.account (int64OfU64 zf.declSize)).addError zf.name .goModSize
+  else if name == licenseName && int64OfU64 zf.declSize > MaxLICENSE then
+    (s.account (int64OfU64 zf.declSize)).addError zf.name .licenseSize
+  else (s.account (int64OfU64 zf.declSize)).pushValid zf.name
+
+/-- checks on the path `name` below the prefix (`isDir`: it had a trailing slash, already removed). -/
+def zipNamed (E : Env) (s : ZSt) (zf : Entry) (name : Bytes) (isDir : Bool) : ZSt :=
+  if pathClean name != name then s.addError zf.name .notClean
+  else if !E.cfp name then s.addError zf.name .filePath
+  else
+    match ccCheckTop E.toFold s.cc name isDir with
+    | (cc', some e) => (s.setCC cc').addError zf.name e
+    | (cc', none) => if isDir then s.setCC cc' else zipSized (s.setCC cc') zf name
+
 def zipStep (E : Env) (pfx : Bytes) (s : ZSt) (zf : Entry) : ZSt :=
   if !isPrefixOfB pfx zf.name then s.addError zf.name .noPrefix
-  else
-    let name := zf.name.drop pfx.length
-    if name == [] then s
-    else
-      let isDir := hasSlashSuffix name
-      let name := if isDir then name.dropLast else name
-      if pathClean name != name then s.addError zf.name .notClean
-      else if !E.cfp name then s.addError zf.name .filePath
-      else
-        match ccCheckTop E.toFold s.cc name isDir with
-        | (cc', some e) => ({ s with cc := cc' }).addError zf.name e
-        | (cc', none) =>
-          let s := { s with cc := cc' }
-          if isDir then s
-          else
-            let base := pathBase name
-            if equalFoldGoMod base && base != name then s.addError zf.name .goModNotRoot
-            else if equalFoldGoMod base && name != goModName then s.addError zf.name .goModCase
-            else
-              let sz := int64OfU64 zf.declSize
-              let s :=
-                if 0 ≤ sz ∧ (MaxZipFile : Int) - s.size ≥ sz then { s with size := s.size + sz }
-                else { s with cf := { s.cf with sizeError := true } }
-              if name == goModName && sz > MaxGoMod then s.addError zf.name .goModSize
-              else if name == licenseName && sz > MaxLICENSE then s.addError zf.name .licenseSize
-              else { s with cf := { s.cf with valid := s.cf.valid ++ [zf.name] } }
+  else if zf.name.drop pfx.length == [] then s
+  else if hasSlashSuffix (zf.name.drop pfx.length) then zipNamed E s zf (zf.name.drop pfx.length).dropLast true
+  else zipNamed E s zf (zf.name.drop pfx.length) false
 
 inductive ZipErr where
   | badModule
